@@ -994,6 +994,21 @@ def r8(ctx):
                  key='ejection-position-current', undecided=bool(unsure))
 
 
+@rule('C07', 'C07-R9', 'the periodic ejection step as a whole, run by the abstract interpreter on model buffers (up to four molecule tokens, every ejectable / not ejectable '
+                       'pattern, one list or several hash groups): exactly the ejectable molecules are yielded, each once and finalised first, the others stay in their own '
+                       'buffer in their old order, the fragment counters move by the ejected fragments, can_be_yielded is asked with the span of the current fragment')
+def r9(ctx):
+    f = ctx.fn(MOLITER, FN)
+    m = ejection_model(ctx)
+    if m is None:
+        ctx.emit('C07-R9', True, MOLITER, f, 'the ejection step uses constructs outside the interpreted subset: decided by the structural rules R1 / R3 / R4 only', key='ejection-step-model', nontrivial=False)
+        return
+    ok, n, wit = m
+    ctx.counters['interpreted_cases'] = ctx.counters.get('interpreted_cases', 0) + n
+    ctx.emit('C07-R9', ok, MOLITER, f, f'{n} model buffers (both pooling methods): the step yields exactly the ejectable molecules and leaves the rest in place' if ok else f'model buffer {wit}',
+             key='ejection-step-model', witness=wit, what='MoleculeIterator.__iter__: the ejection step emits a molecule that cannot be yielded yet / loses or duplicates one')
+
+
 META = {
     'text': ('Decides, for every path of MoleculeIterator.__iter__: the ejection loops remove exactly the molecules they '
              'selected (index compensation is the linear form j - i over enumerate positions of the same container, in '
